@@ -483,7 +483,7 @@ def _exec_b(plan):
                                         got_len=len(got_b), want_len=len(expect))
                         none_expected = (expect == b'' and not raw.closed_ and n != 0)
                         if (got is None) != none_expected:
-                            return fail('none-vs-empty', idx, got=repr(got)[:20], none_expected=none_expected)
+                            return fail('none-vs-empty', idx, got=U.safe_repr(got, 20), none_expected=none_expected)
                     m['fetched'] = max(m['fetched'], m['pos'] + len(got_b))
                     if k == 'read':
                         m['pos'] += len(got_b)
